@@ -152,6 +152,10 @@ func body(r *rand.Rand, root walletdb.ReadWriteBucket, m *mb, readonly bool, log
 				if g := curB.Get(k); !bytes.Equal(g, v) || (g == nil && len(v) > 0) {
 					return fmt.Sprintf("read-own-write|Get(%x) right after Put returned %x", k, g)
 				}
+				// presence, not just value: an empty value is still a key
+				if kk, _ := curB.ReadCursor().Seek(k); !bytes.Equal(kk, k) {
+					return fmt.Sprintf("read-own-write|key %x is not found by a cursor right after Put(%x, %d-byte value) succeeded", k, k, len(v))
+				}
 			}
 		case 3: // get
 			got := curB.Get(k)
